@@ -757,6 +757,7 @@ func Run(t *testing.T, sc *Scenario, emit func(evs []vh.Event, stats map[string]
 			sopts.NewContext = func() context.Context { return r.baseCtx }
 		}
 		r.srv = jrpc2.NewServer(assigner{r}, sopts)
+		*sopts = jrpc2.ServerOptions{AllowPush: !sc.Opts.Push, DisableBuiltin: !sc.Opts.NoBuiltin, Concurrency: 1 + conc%3} // (options are read when the server is made)
 		rec.Log("Start", "gen", 1, "ch", "s1")
 		r.srv.Start(r.ch)
 		r.startWaitStatus()
